@@ -220,10 +220,12 @@ pub fn closure_stream(rep: &mut Report, rng: &mut Rng, n: usize) {
             let counter = db.add_counter();
             // timestamps of the union-find rows must not decrease: the merge function stamps with the current one
             let now = std::sync::Arc::new(std::sync::atomic::AtomicU32::new(0)); let now2 = now.clone();
+            // merge-function calls on two different ids (the unions a pass asks for), counted for the hash-cons model
+            let merges = std::sync::Arc::new(std::sync::atomic::AtomicUsize::new(0)); let merges2 = merges.clone();
             db.container_values_mut().register_type::<VC>(counter, move |st: &mut egglog_core_relations::ExecutionState, a: Value, b: Value| {
                 // two containers became equal: keep the smaller id and tell the union-find
                 let (mn, mx) = if a.rep() <= b.rep() { (a, b) } else { (b, a) };
-                if mn != mx { st.stage_insert(uf, &[mx, mn, Value::new(now2.load(std::sync::atomic::Ordering::SeqCst))]); }
+                if mn != mx { merges2.fetch_add(1, std::sync::atomic::Ordering::SeqCst); st.stage_insert(uf, &[mx, mn, Value::new(now2.load(std::sync::atomic::Ordering::SeqCst))]); }
                 mn
             });
             let base: Vec<Value> = (0..nbase).map(|_| Value::from_usize(db.inc_counter(counter))).collect();
@@ -259,6 +261,7 @@ pub fn closure_stream(rep: &mut Report, rng: &mut Rng, n: usize) {
                     let mentioned: BTreeSet<u32> = before.values().flatten().copied().collect();
                     let finds: Vec<String> = mentioned.iter().filter_map(|x| db.get_table(uf).get_row(&[Value::new(*x)]).map(|r| format!("{x}>{}", r.vals[1].rep()))).collect();
                     let hc_line = format!("hc rebuild {} {}", if finds.is_empty() { "-".into() } else { finds.join(",") }, show_tab(&before));
+                    let merges_before = merges.load(std::sync::atomic::Ordering::SeqCst);
                     let summary = db.rebuild_containers(uf);
                     db.merge_all();
                     let after = snapshot(&db);
@@ -269,7 +272,7 @@ pub fn closure_stream(rep: &mut Report, rng: &mut Rng, n: usize) {
                     for (id, c) in &after { if c.iter().any(|x| dirty.contains(x)) && !dirty.contains(id) { return Err(format!("container #{id} = {c:?} holds a dirty id but is not itself reported dirty {dirty:?}: the closure stopped short | {hist}")); } }
                     let edges: Vec<String> = after.iter().flat_map(|(id, c)| { let mut cs: Vec<u32> = c.clone(); cs.sort(); cs.dedup(); cs.into_iter().map(move |x| format!("{x}>{id}")) }).collect();
                     let line = format!("cl close {} {} {}", after.len() + nbase + 2, if edges.is_empty() { "-".into() } else { edges.join(",") }, if direct.is_empty() { "-".into() } else { direct.iter().map(|x| x.to_string()).collect::<Vec<_>>().join(",") });
-                    out.push((line, direct.clone(), dirty.clone(), hist.clone(), hc_line, show_tab(&after)));
+                    out.push((line, direct.clone(), dirty.clone(), hist.clone(), hc_line, format!("{} {}", show_tab(&after), merges.load(std::sync::atomic::Ordering::SeqCst) - merges_before)));
                     if !summary.changed() { break; }
                 }
             }
@@ -295,6 +298,8 @@ pub fn closure_stream(rep: &mut Report, rng: &mut Rng, n: usize) {
             rep.traces_vs_model += 1;
             let mut parts = m[i].split(' ');
             let (tab, unions) = (parts.next().unwrap_or(""), parts.next().and_then(|x| x.parse::<usize>().ok()).unwrap_or(0));
+            let (after, real_unions) = { let mut p = after.split(' '); (p.next().unwrap_or(""), p.next().and_then(|x| x.parse::<usize>().ok()).unwrap_or(usize::MAX)) };
+            if tab == after && unions != real_unions { rep.violate("correspondence", "c14-hashcons-union-count-differs", format!("during `{}` the merge function was called on {real_unions} pairs of different ids, the Lean rebuildPass emits {unions} unions (C14_rebuild_unions_sound)", hc_lines[i]), json!({"history": hist, "line": hc_lines[i]})); }
             if tab != after { rep.violate("correspondence", "c14-hashcons-rebuild-differs", format!("after `{}` the container table is `{after}`, the Lean rebuildPass (C14_rebuild_hashcons / _present / _unions_sound) gives `{tab}`", hc_lines[i]), json!({"history": hist, "line": hc_lines[i]})); }
             else { rep.count("hashcons_rebuild_equal_to_model", 1); if unions > 0 { rep.count("hashcons_rebuilds_with_merged_containers", 1); } }
         }
